@@ -16,11 +16,11 @@ package main
 
 import (
 	"bytes"
-	"go/constant"
-	"math/big"
 	"encoding/json"
 	"fmt"
+	"go/constant"
 	"go/types"
+	"math/big"
 	"os"
 	"os/exec"
 	"path/filepath"
